@@ -43,6 +43,13 @@ structure SpecSt where
   events : List (String × Nat × Ev) := []              -- node name, time, event
   open_ : List (Nat × String × Nat × Bool × Nat) := [] -- eid, res, batch, inbound, start ms
   other : List String := []                            -- resources carrying rules outside the composite reject/iso/system Spec
+  hs : List (String × List HsRule) := []               -- hotspot rules per resource, in the implementation's order
+  hsRef : List (String × HsCtrl) := []                 -- one isolated reference controller per resource/rule/value
+  hsOpen : List (Nat × List String) := []              -- entry -> reference keys whose in-flight count it raised
+  hsAdm : List (String × Nat × Nat) := []              -- reference key -> (time of first request, tokens admitted since)
+  hsLast : List (String × Nat) := []                   -- reference key -> scheduled time (ms) of the last admitted request (throttling)
+  thrN : List (String × List World.FlowSpec) := []     -- resources all of whose flow rules are direct/throttling (implementation order)
+  thrLast : List (String × Nat) := []                  -- resource/rule -> scheduled time (ns) of the last admitted request
   deriving Inhabited
 
 def ruleGeometry (ivl : Nat) : Nat × Nat × Bool :=
@@ -82,6 +89,88 @@ def specSysObs (sp : SpecSt) (t : Nat) : SysObs :=
     load := sp.load, cpu := sp.cpu,
     maxComplete := F64.mul (F64.div (F64.mul (F64.ofNat xb) (F64.ofNat 2)) (F64.ofNat 1000)) (F64.ofNat 1000),
     minRt := F64.ofNat (windowMinRt 500 evs lo hi) }
+
+/-! ### hotspot Spec: every parameter value has its own, isolated reference controller -/
+
+structure HsExpect where
+  block : Option (String × Nat) := none     -- (rule id, snapshot) of the first controller that must block
+  sleepNs : Nat := 0                        -- total time the caller must be held
+  msg : Option String := none               -- a Spec violation found while stepping the references
+  deriving Inhabited
+
+def refKey (res rule arg : String) : String := s!"{res}/{rule}/{arg}"
+
+/-- step the isolated references of `res` for one request; `now` in ns -/
+def hsExpect (sp : SpecSt) (res : String) (nowNs batch : Nat) (args : Option (List String))
+    (atts : Option (List (String × String))) : SpecSt × HsExpect :=
+  let rules := (World.lookup sp.hs res).getD []
+  let rec go (sp : SpecSt) (ex : HsExpect) (now : Nat) : List HsRule → SpecSt × HsExpect
+    | [] => (sp, ex)
+    | r :: rest =>
+      match extractArgs r args atts with
+      | none => go sp ex now rest
+      | some arg =>
+        let key := refKey res r.id arg
+        -- the reference never evicts: capacity far above the number of values
+        let c0 := (World.lookup sp.hsRef key).getD (HsCtrl.new { r with maxCap := 0 })
+        let nowMs := now / 1000000
+        let (c1, res1) := c0.check nowMs arg batch
+        let sp := { sp with hsRef := World.update sp.hsRef key c1 }
+        match res1 with
+        | .blocked snap _ => (sp, { ex with block := some (r.id, snap) })
+        | .wait w =>
+          -- Spec side conditions of throttling: queued only within the maximum queueing time; spacing ≥ cost
+          let cost := throttleCost batch r.durSec (r.thrFor arg)
+          let last := (World.lookup sp.hsLast key).getD 0
+          let sched := nowMs + w
+          let ex := if w > r.maxQueueMs && r.maxQueueMs > 0 then { ex with msg := some s!"queued for {w} ms beyond the maximum queueing time {r.maxQueueMs}" } else ex
+          let ex := if last != 0 && sched < last + cost then { ex with msg := some s!"scheduled {sched - last} ms after the previous admission, closer than the cost {cost}" } else ex
+          let sp := { sp with hsLast := World.update sp.hsLast key sched }
+          go sp { ex with sleepNs := ex.sleepNs + hsWaitToNs w } (now + hsWaitToNs w) rest
+        | .pass =>
+          let sp := if r.metric == .qps && r.strategy == .throttling then { sp with hsLast := World.update sp.hsLast key nowMs } else sp
+          -- token bound for QPS reject: admitted(first..t) ≤ q + b + q·(t − first)/d
+          let (sp, ex) := if r.metric == .qps && r.strategy == .reject then
+              let (first, adm) := (World.lookup sp.hsAdm key).getD (nowMs, 0)
+              let adm := adm + batch
+              let q := r.thrFor arg
+              let ex := if (adm - (q + r.burst)) * (r.durSec * 1000) > q * (nowMs - first) then
+                  { ex with msg := some s!"value {arg}: {adm} tokens admitted since {first}, above q+b+q*(t-first)/d (q={q} b={r.burst} d={r.durSec} t={nowMs})" } else ex
+              ({ sp with hsAdm := World.update sp.hsAdm key (first, adm) }, ex)
+            else (sp, ex)
+          go sp ex now rest
+  go sp {} nowNs rules
+
+/-- Spec of flow throttling for a resource whose rules are all direct/throttling, evaluated on the implementation's
+observation: every rule keeps its own schedule; a request is queued behind every rule in turn (only if that rule's wait
+is within its maximum queueing time, rejected otherwise) and the caller is held until the last scheduled time. -/
+def specThrottleN (sp : SpecSt) (res : String) (rules : List World.FlowSpec) (nowNs batch : Nat) (obs : String) (dtObs : Nat) :
+    SpecSt × Option String :=
+  let rec go (sp : SpecSt) (t : Nat) : List World.FlowSpec → SpecSt × Option String
+    | [] =>
+      -- every rule admitted the request
+      if obs != "pass" then (sp, some s!"rejected although every throttling rule can queue the request within its maximum queueing time: {obs}")
+      else if nowNs + dtObs < t then (sp, some s!"caller released after {dtObs} ns, before its scheduled time (wait {t - nowNs} ns)")
+      else if nowNs + dtObs > t then (sp, some s!"caller held {dtObs} ns, longer than its scheduled wait {t - nowNs} ns")
+      else (sp, none)
+    | r :: rest =>
+      if batch = 0 then go sp t rest else
+      let key := res ++ "/" ++ r.id
+      let ivlNs := (if r.ivl = 0 then 1000 else r.ivl) * 1000000
+      let maxq := r.maxQueueMs * 1000000
+      let cost := (F64.mul (F64.div (F64.ofNat batch) r.thr) (F64.ofNat ivlNs)).toNatFloor
+      let never := !F64.lt F64.zero r.thr || F64.ltNat r.thr batch
+      let last := (World.lookup sp.thrLast key).getD 0
+      let wouldWait := if last + cost ≤ t then 0 else last + cost - t
+      if never || wouldWait > maxq then
+        -- this rule must reject
+        if obs == "pass" then (sp, some s!"admitted although rule {r.id} cannot serve it (threshold 0, batch above threshold, or wait {wouldWait} ns above the maximum {maxq} ns)")
+        else if obsField obs "type" != "Flow" then (sp, some s!"throttling rejection reported with block type {obsField obs "type"}")
+        else if nowNs + dtObs != t then (sp, some s!"caller held {dtObs} ns before the rejection, the waits already due were {t - nowNs} ns")
+        else (sp, none)
+      else
+        go { sp with thrLast := World.update sp.thrLast key (t + wouldWait) } (t + wouldWait) rest
+  go sp nowNs rules
 
 def renderBuild : BuildRes → String
   | .pass => "pass"
@@ -247,6 +336,8 @@ def stepCase (st : St) (v : Verdict) (i : Nat) (opText obs : String) : St × Ver
           let old := ((World.lookup sp.flow res).getD []).find? (fun o => o.thr == r.thr && o.L == g.1 && o.W == g.2.1)
           ({ id := r.id, thr := r.thr, L := g.1, W := g.2.1, priv := g.2.2, since := match old with | some o => o.since | none => sp.seq } : SRule))
         let sp := if plain then sp else { sp with other := res :: sp.other }
+        let sp := if !rules'.isEmpty && rules'.all (fun r => r.throttling && !r.warmUp) then { sp with thrN := World.update sp.thrN res rules' }
+          else { sp with thrN := sp.thrN.filter (fun p => p.1 != res) }
         let v := if rules'.any (·.throttling) then v.addTag "flow-throttling" else v
         let v := if rules'.any (·.warmUp) then v.addTag "flow-warmup" else v
         let v := if srules.any (·.priv) then v.addTag "private-window" else v
@@ -290,6 +381,10 @@ def stepCase (st : St) (v : Verdict) (i : Nat) (opText obs : String) : St × Ver
         (st, v.setDiff s!"step={i} op=[{opText}] controllers held by the implementation are not the loaded rules: [{obs}]")
       else
         let rules' := reorder (·.id) rules ids
+        let v := if rules'.any (fun r => !r.specific.isEmpty) then v.addTag "hotspot-override" else v
+        let v := if rules'.any (fun r => r.maxCap > 0) then v.addTag "hotspot-small-capacity" else v
+        -- the isolated-reference Spec presumes no eviction: it is applied when the capacity is the default
+        let sp := if rules'.all (fun r => r.maxCap == 0) then { sp with hs := World.update sp.hs res rules' } else sp
         ({ w := w.loadHs res rules', sp := { sp with other := res :: sp.other } }, v.addTag "hotspot-rules")
     | _, _ => bad "bad-op"
   | "br.load" =>
@@ -323,6 +418,37 @@ def stepCase (st : St) (v : Verdict) (i : Nat) (opText obs : String) : St × Ver
       let obs := if obsFull.startsWith "pass" then "pass" else obsFull
       let v := if sp.other.contains res then v else
         match specBuild sp res t batch inbound obs with | some m => v.setViol s!"step={i} {m}" | none => v
+      -- flow throttling Spec, when the resource carries only direct/throttling flow rules and nothing else
+      let (sp, v) := match World.lookup sp.thrN res with
+        | some rs =>
+          if !(w.isoRules res).isEmpty || !(w.hsCtrls res).isEmpty || !(w.breakers res).isEmpty || (!w.sys.isEmpty && inbound) then (sp, v) else
+          let dtObs := (obsField obsFull "dt").toNat?.getD 0
+          let (sp, m) := specThrottleN sp res rs w.nowNs batch obs dtObs
+          let v := match m with | some m => v.setViol s!"step={i} flow throttling: {m}" | none => v
+          let v := if dtObs > 0 then v.addTag "flow-wait" else v
+          let v := if obs != "pass" then v.addTag "flow-throttle-reject" else v
+          (sp, v)
+        | none => (sp, v)
+      -- hotspot Spec (isolated per-value references), when the resource carries only hotspot rules
+      let hasHs := !((World.lookup sp.hs res).getD []).isEmpty
+      let onlyHs := hasHs && (w.ctrls res).isEmpty && (w.isoRules res).isEmpty && (w.breakers res).isEmpty && (w.sys.isEmpty || !inbound)
+      let (sp, hx) := if hasHs then hsExpect sp res w.nowNs batch args atts else (sp, {})
+      let v := if !onlyHs then v else
+        let dtObs := (obsField obsFull "dt").toNat?.getD 0
+        let v := match hx.msg with | some m => v.setViol s!"step={i} hotspot: {m}" | none => v
+        let v := match hx.block with
+          | some (rid, snap) =>
+            if obs == "pass" then v.setViol s!"step={i} hotspot: admitted although value's own bucket/cap for rule {rid} refuses it"
+            else if obsField obs "type" != "HotSpotParamFlow" then v.setViol s!"step={i} hotspot: rejection reported with block type {obsField obs "type"} (expected HotSpotParamFlow)"
+            else if obsField obs "rule" != rid then v.setViol s!"step={i} hotspot: block names rule {obsField obs "rule"}, the refusing rule is {rid}"
+            else if obsField obs "snap" != toString snap then v.setViol s!"step={i} hotspot: snapshot {obsField obs "snap"} differs from {snap}"
+            else v.addTag "hotspot-block"
+          | none =>
+            if obs != "pass" then v.setViol s!"step={i} hotspot: rejected although every value's own bucket/cap admits the request: {obs}"
+            else v
+        let v := if dtObs < hx.sleepNs then v.setViol s!"step={i} hotspot throttling: caller released after {dtObs} ns, scheduled wait is {hx.sleepNs} ns"
+          else if dtObs > hx.sleepNs then v.setViol s!"step={i} hotspot throttling: caller held {dtObs} ns, scheduled wait is {hx.sleepNs} ns" else v
+        if hx.sleepNs > 0 then v.addTag "hotspot-wait" else v
       let v := if obs == "pass" then v.addTag "pass" else if obsField obs "type" == "Flow" then v.addTag "flow-block"
         else if obsField obs "type" == "SystemFlow" then v.addTag s!"system-block" else v.addTag "other-block"
       let v := if obs == "pass" && inbound && !sp.sys.isEmpty then v.addTag "system-pass" else v
@@ -331,6 +457,16 @@ def stepCase (st : St) (v : Verdict) (i : Nat) (opText obs : String) : St × Ver
       let nodeNames := if inbound then [res, "__inbound__"] else [res]
       -- statistics are recorded after the checks, i.e. after any throttling sleep the implementation reports
       let tStat := (w.nowNs + ((obsField obsFull "dt").toNat?.getD 0)) / 1000000
+      let sp := if obs == "pass" && hasHs then
+          -- in-flight bookkeeping of the concurrency references
+          let keys := ((World.lookup sp.hs res).getD []).filterMap (fun r =>
+            if r.metric == .concurrency then (extractArgs r args atts).map (fun a => (refKey res r.id a, a)) else none)
+          let sp := keys.foldl (fun (sp : SpecSt) ka =>
+            match World.lookup sp.hsRef ka.1 with
+            | some c => { sp with hsRef := World.update sp.hsRef ka.1 (c.concAdjust (some ka.2) true) }
+            | none => sp) sp
+          { sp with hsOpen := (eid, keys.map (fun ka => ka.1 ++ "\t" ++ ka.2)) :: sp.hsOpen }
+        else sp
       let sp' := if obs == "pass" then
           { sp with admitted := (res, tStat, batch, sp.seq) :: sp.admitted, seq := sp.seq + 1,
                     events := nodeNames.map (fun nm => (nm, tStat, Ev.add .pass batch)) ++ sp.events,
@@ -348,6 +484,16 @@ def stepCase (st : St) (v : Verdict) (i : Nat) (opText obs : String) : St × Ver
       match w.exit eid err with
       | some w' =>
         let v := v.expect i opText ("ok" ++ evStr (w'.log.drop w.log.length)) obs
+        let sp := match sp.hsOpen.find? (fun e => e.1 == eid) with
+          | some (_, keys) =>
+            let sp := keys.foldl (fun (sp : SpecSt) (ka : String) =>
+              match ka.splitOn "\t" with
+              | [k, a] => (match World.lookup sp.hsRef k with
+                | some c => { sp with hsRef := World.update sp.hsRef k (c.concAdjust (some a) false) }
+                | none => sp)
+              | _ => sp) sp
+            { sp with hsOpen := sp.hsOpen.filter (fun e => e.1 != eid) }
+          | none => sp
         let sp' := match sp.open_.find? (fun e => e.1 == eid) with
           | some (_, res, batch, inbound, start) =>
             let nodeNames := if inbound then [res, "__inbound__"] else [res]
